@@ -8,6 +8,7 @@ func installHooks(e *Engine) {
 	simhook.YieldFn = e.yield
 	simhook.YieldUntilFn = e.yieldUntil
 	simhook.DialFn = e.Net.dial
+	simhook.SelectReverseFn = func() bool { return e.selectReverse }
 	simhook.PanicFn = func(fn string, r interface{}, stack []byte) {
 		e.recordPanic("library goroutine "+fn, r, stack)
 	}
